@@ -21,7 +21,7 @@ def build(entry):
     return [(NAMES[v["name"]], VAL[v["kind"]]) for v in entry["vbs"]], PTYPE[entry["ptype"]]
 
 
-def case(rec, cfg, agent, op, entry, sid=1):
+def case(rec, cfg, agent, op, entry, sid=1, variant=0):
     first = rec.n
     s = rawdrv.RawSession(rec, cfg, sid=sid)
     if op == "get":
@@ -34,7 +34,10 @@ def case(rec, cfg, agent, op, entry, sid=1):
         if ptype == "get":
             vbs = [(n, ("null",)) for n, _ in vbs]
         if ptype == "report" and cfg.ver == "v3":
-            d = agent.reply(cfg, req, vbs, ptype="report")
+            # an agent that rejects a message before reading the scoped PDU cannot echo the request-id (RFC 3412 7.1):
+            # only the msgID ties such a Report to the request
+            rid = [req.reqid, 0, 2 ** 31 - 1, (req.reqid + 1) & 0x7FFFFFFF][variant % 4]
+            d = agent.reply(cfg, req, vbs, ptype="report", reqid=rid)
         else:
             d = agent.reply(cfg, req, vbs, ptype=ptype)
         s.inject(d)
@@ -64,7 +67,7 @@ def run(tier):
             if not thorough and cn != "v2c" and (ei + ci + SEED) % 7:
                 continue
             for op in ("get", "get_many"):
-                a, b = case(rec, std[cn], agent, op, e)
+                a, b = case(rec, std[cn], agent, op, e, variant=ei)
                 runs.append((a, b, dict(cfg=cn, op=op, entry=e)))
                 chk.case((cn, op, json.dumps(e, sort_keys=True)), nontrivial=(e["ptype"] != 0 and (len(e["vbs"]) > 0 or e["ptype"] == 8)))
     rec.close()
